@@ -1,25 +1,21 @@
 import ShVerif.Proofs.C05
 /-
   C05, Minify: the only comments the model printer writes are shebangs at 1:1 (through
-  `comments`) and inline backquote comments (counted by the ghost `inlineN`).
+  `comments`); the inline backquote comment branch of `cmdSubst` is disabled by Minify.
 -/
 namespace ShVerif.C05
 
-/-- `τ` is reached from `σ`; the inline counter never decreases; if it did not increase and
-    nothing was pending, nothing is pending and every newly written comment is a 1:1 shebang. -/
+/-- `τ` is reached from `σ`: if nothing was pending, nothing is pending and every newly written
+    comment is a 1:1 shebang. -/
 def MStep (σ τ : St) : Prop :=
-  σ.inlineN ≤ τ.inlineN ∧
-    (τ.inlineN = σ.inlineN → σ.pending = [] →
-      τ.pending = [] ∧ ∀ c ∈ τ.emitted, c ∈ σ.emitted ∨ shebangAt11 c = true)
+  σ.pending = [] → τ.pending = [] ∧ ∀ c ∈ τ.emitted, c ∈ σ.emitted ∨ shebangAt11 c = true
 
-theorem MStep.refl (σ : St) : MStep σ σ := ⟨Nat.le_refl _, fun _ h => ⟨h, fun _ hc => Or.inl hc⟩⟩
+theorem MStep.refl (σ : St) : MStep σ σ := fun h => ⟨h, fun _ hc => Or.inl hc⟩
 
 theorem MStep.andThen {a b c : St} (h1 : MStep a b) (h2 : MStep b c) : MStep a c := by
-  refine ⟨Nat.le_trans h1.1 h2.1, fun h hp => ?_⟩
-  have hb : b.inlineN = a.inlineN := Nat.le_antisymm (h ▸ h2.1) h1.1
-  have hc : c.inlineN = b.inlineN := by omega
-  obtain ⟨p1, e1⟩ := h1.2 hb hp
-  obtain ⟨p2, e2⟩ := h2.2 hc p1
+  intro hp
+  obtain ⟨p1, e1⟩ := h1 hp
+  obtain ⟨p2, e2⟩ := h2 p1
   refine ⟨p2, fun x hx => ?_⟩
   rcases e2 x hx with h | h
   · exact e1 x h
@@ -29,7 +25,7 @@ local infixl:65 " ⟫ " => MStep.andThen
 
 /-- a primitive that keeps `acc` and leaves an empty queue empty -/
 theorem Keeps.mstep {σ τ : St} (h : Keeps σ τ) (hp : σ.pending = [] → τ.pending = []) : MStep σ τ := by
-  refine ⟨Nat.le_of_eq h.inlineN.symm, fun _ hp0 => ⟨hp hp0, fun c hc => Or.inl ?_⟩⟩
+  refine fun hp0 => ⟨hp hp0, fun c hc => Or.inl ?_⟩
   have := h.acc
   simp only [St.acc, hp0, hp hp0, List.append_nil] at this
   rwa [this] at hc
@@ -101,7 +97,7 @@ theorem comments_mstep (o : Opts) (hm : o.minify = true) (cs σ) : MStep σ (com
     refine MStep.andThen ?_ (ih _)
     split
     · rename_i hs
-      refine ⟨Nat.le_refl _, fun _ hp => ⟨hp, fun x hx => ?_⟩⟩
+      refine fun hp => ⟨hp, fun x hx => ?_⟩
       simp only [List.mem_append, List.mem_singleton] at hx
       rcases hx with h | h
       · exact Or.inl h
@@ -114,9 +110,12 @@ theorem listPost_mstep (o : Opts) (hm : o.minify = true) (n sep last σ) : MStep
     MStep.iteId _ (Same.mstep ⟨rfl, rfl, rfl, rfl⟩)
   exact h1 ⟫ comments_mstep o hm last _
 
-theorem emitInline_mstep (c σ) : MStep σ (emitInline c σ) := by
-  unfold emitInline
-  exact ⟨Nat.le_succ _, fun h => absurd h (by simp)⟩
+theorem inlineCand_minify (o : Opts) (hm : o.minify = true) (b : Bool) (l : List Com) (r : Pos) (σ : St) :
+    inlineCand o b l r σ = none := by
+  unfold inlineCand
+  split
+  · simp [hm]
+  · rfl
 
 theorem nested_mstep (o : Opts) (hm : o.minify = true) (req : Bool) (stmts : List Stmt) (last : List Com)
     (endLine : Nat) (closing : Pos) (σ : St) (h : ∀ τ, MStep τ (prStmtLoop o req stmts τ)) :
@@ -149,10 +148,8 @@ mutual
         simp only [prItem]
         exact nested_mstep o hm swl stmts last endLine right σ (fun τ => mstep_loop swl stmts τ) ⟫ rightParen_mstep o right _
       | backquote =>
-        simp only [prItem]
-        split
-        · exact emitInline_mstep _ σ
-        · exact nested_mstep o hm swl stmts last endLine right σ (fun τ => mstep_loop swl stmts τ) ⟫ rightParen_mstep o right _
+        simp only [prItem, inlineCand_minify o hm]
+        exact nested_mstep o hm swl stmts last endLine right σ (fun τ => mstep_loop swl stmts τ) ⟫ rightParen_mstep o right _
     | .arr rparen elems last, σ => by
       simp only [prItem]
       have h2 : ∀ τ : St, MStep τ (if last.isEmpty = true then τ else flushComments o (comments o last τ)) := by
@@ -237,14 +234,12 @@ mutual
         ⟫ semiRsrv_mstep o donePos _
     | .binary opPos x y, σ => by
       simp only [prCmd, hm, Bool.true_or, ↓reduceIte]
-      have hb : ∀ τ : St, MStep τ (if y.coms.isEmpty = true then τ else { τ with lossD := τ.lossD + 1 }) := by
+      have hb : ∀ τ : St, MStep τ (if (y.coms.isEmpty || (acStmt y).isEmpty) = true then τ else { τ with lossD := τ.lossD + 1 }) := by
         intro τ
         split
         · exact MStep.refl τ
-        · exact ⟨Nat.le_refl _, fun _ hp => ⟨hp, fun _ hc => Or.inl hc⟩⟩
-      refine mstep_stmt x σ ⟫ ?_
-      have := hb (prStmt o x σ)
-      exact MStep.andThen (MStep.andThen this (advLine_mstep _ _)) (mstep_stmt y _)
+        · exact fun hp => ⟨hp, fun _ hc => Or.inl hc⟩
+      exact mstep_stmt x σ ⟫ hb _ ⟫ advLine_mstep _ _ ⟫ mstep_stmt y _ ⟫ comments_mstep o hm _ _
     | .func body, σ => by
       simp only [prCmd]
       exact MStep.iteId _ (newline_mstep o Pos.none σ) ⟫ advLine_mstep _ _ ⟫ comments_mstep o hm _ _
@@ -258,7 +253,7 @@ mutual
     | .wrap pre none, σ => by
       simp only [prCmd]; exact mstep_items pre σ
     | .wrap pre (some s), σ => by
-      simp only [prCmd]; exact mstep_items pre σ ⟫ mstep_stmt s _
+      simp only [prCmd]; exact mstep_items pre σ ⟫ mstep_stmt s _ ⟫ comments_mstep o hm _ _
 
   theorem mstep_if : ∀ (fi : Pos) (ic : IfC) (σ : St), MStep σ (prIf o fi ic σ)
     | fi, .mk position hasThen thenPos condEnd cond condLast thenEnd thn thenLast last none, σ => by
@@ -288,10 +283,10 @@ mutual
 
   theorem mstep_caseItems : ∀ (cis : List CaseItem) (σ : St), MStep σ (prCaseItems o cis σ)
     | [], σ => by simp only [prCaseItems]; exact MStep.refl σ
-    | .mk pos opPos endLine coms pats stmts last :: rest, σ => by
+    | .mk pos opPos opBreak endLine coms pats stmts last :: rest, σ => by
       simp only [prCaseItems]
       have hop : ∀ τ : St, MStep τ
-          (if (!o.minify || !rest.isEmpty) = true then
+          (if (!o.minify || !rest.isEmpty || !opBreak) = true then
             advLine opPos.line (if wantsNewline o τ opPos false = true then { newlines o opPos τ with wantNewline := true } else τ)
            else τ) := by
         intro τ
